@@ -76,6 +76,18 @@ def run_history(ops):
                 delattr(cur, op[1])
             elif k == 'iadd':
                 cur.data += _real(op[1])
+            elif k == 'clone':
+                # a copy made by the standard library is the same message (and the history goes on with the copy)
+                import pickle
+                old = cur
+                cur = {'copy': copy.copy, 'deepcopy': copy.deepcopy, 'pickle': lambda o: pickle.loads(pickle.dumps(o)),
+                       'pickle0': lambda o: pickle.loads(pickle.dumps(o, 0))}[op[1]](cur)
+                if vars(old) != before:
+                    fail = fail or f'{op[1]} changed the original message: {before} -> {vars(old)}'
+                if type(cur) is not type(old) or vars(cur) != before or \
+                        any(type(v) is not type(before[n]) for n, v in vars(cur).items()):
+                    fail = fail or (f'{op[1]} of a message with {before} gives {type(cur).__name__} with {vars(cur)} '
+                                    f'(types {[type(v).__name__ for v in vars(cur).values()]})')
         except Exception as e:
             err = exc_name(e)
             allowed = ('ValueError', 'TypeError', 'AttributeError')
@@ -101,6 +113,8 @@ def kw_tokens(kw):
 
 def enc(op):
     k = op[0]
+    if k == 'clone':
+        return None             # the model's state does not change
     if k in ('new', 'fromdict'):
         return ('mo new %s %s' % (op[1], kw_tokens(op[2]))).strip()
     if k == 'copy':
@@ -167,6 +181,26 @@ def gen(ck):
                 hs.append([('new', t, [(n, v)]), ('copy', None, [(n, eqv)])])
                 hs.append([('new', t, [(n, v)]), ('set', n, eqv)])
                 hs.append([('new', t, [(n, v)]), ('copy', t, [(n, eqv), ('time', 2)])])
+    # names that exist on the class (methods, properties) are not message attributes: assigning them is refused as well
+    for t in msgs.TYPE_NAMES:
+        for n in ('is_meta', 'is_cc', 'is_realtime', 'copy', 'bytes', 'bin', 'hex', 'dict', 'from_dict', 'from_bytes', '__class__',
+                  '__dict__', '__len__', '_setattr', 'frozen'):
+            hs.append([('new', t, []), ('set', n, rng.choice([0, 1, 'x'])), ('copy', None, [])])
+    # standard-library copies, then assignments that are refused (the refused ones change nothing, in the copy either)
+    for _ in range(600 if ck.tier == 'quick' else 20000):
+        t = rng.choice(['sysex', 'sysex', 'note_on', 'pitchwheel', 'songpos', 'control_change'])
+        names = list(msgs.TYPES[t][1])
+        h = [('new', t, [(n, _good(rng, n)) for n in names if rng.random() < 0.7]), ('clone', rng.choice(['copy', 'deepcopy', 'pickle', 'pickle0']))]
+        for _k in range(rng.randint(1, 4)):
+            r = rng.random()
+            if t == 'sysex' and r < 0.6:
+                h.append(('iadd', rng.choice([[5, 300], [1, 2], (1.5,), [-1], [3], 'x', [127, 128]])))
+            elif r < 0.8:
+                n = rng.choice(names + ['time'])
+                h.append(('set', n, values_for(rng, n)))
+            else:
+                h.append(('clone', rng.choice(['copy', 'deepcopy', 'pickle'])))
+        hs.append(h)
     for _ in range(4000 if ck.tier == 'quick' else 150000):
         t = rng.choice(msgs.TYPE_NAMES + ['foo'] if rng.random() < 0.03 else msgs.TYPE_NAMES)
         names = list(msgs.TYPES[t][1]) if t in msgs.TYPES else []
@@ -227,7 +261,10 @@ def run(ck):
         impl.append('ok')
         for o, l in zip(h, lines):
             try:
-                reqs.append(enc(o))
+                e = enc(o)
+                if e is None:
+                    continue
+                reqs.append(e)
                 impl.append(l)
             except ValueError:
                 break
